@@ -213,6 +213,7 @@ struct ChunkObs {
     pumps: u64,
     expose: ExposeStats,
     interrupts: u64,
+    block_changes: u64,
 }
 
 fn run_chunker(stream: &[u8], script: Vec<Step>, block: usize, arena_mode: ArenaMode, seed: u64, obs: &mut ChunkObs) -> Result<(), Fail> {
@@ -243,8 +244,14 @@ fn run_chunker(stream: &[u8], script: Vec<Step>, block: usize, arena_mode: Arena
             if obs.pumps as usize > max_pumps + 8 && eof_seen == 0 {
                 return Err(fail(&["C08"], "no-eof", format!("no Eof after {} pumps on a {}-byte stream", max_pumps, stream.len())));
             }
+            // The block size is a per-call argument: a quarter of the cases
+            // change it from pump to pump.
+            let this_block = if seed % 4 == 3 { [0usize, 1, 2, 3, 5, 8, 64, 4096][rng.usize_below(8)] } else { block };
+            if this_block != block {
+                obs.block_changes += 1;
+            }
             let chunk = chunker
-                .pump(&mut arena, &mut reader, block)
+                .pump(&mut arena, &mut reader, this_block)
                 .map_err(|e| fail(&["C08", "C17"], "pump-err", format!("pump failed on a benign reader: {}", e)))?;
             match chunk {
                 Chunk::Eof => {
@@ -666,6 +673,7 @@ pub fn run(ctx: &mut Ctx) {
                     ctx.feature_n("stream.chunker.trailing_FE_at_end_of_stream", obs.trailing_fe_at_eof);
                     ctx.feature_n("stream.chunker.FE_FE_FD", obs.fe_fe_fd);
                     ctx.feature_n("stream.chunker.reader_interrupts", obs.interrupts);
+                    ctx.feature_n("stream.chunker.block_size_changed_between_pumps", obs.block_changes);
                     ctx.feature_n("stream.chunker.exposed_slices_checked", obs.expose.slices_checked);
                     if block < 2 {
                         ctx.feature("stream.chunker.block_size_below_2");
